@@ -47,8 +47,8 @@ _ABSOLUTE = {"vlib.pulses.moda", "vlib.pulses.modb", "vlib.pulses.pkgc", "vlib.p
 # (the qscout layout), a module inside a sub-package (dotted relative name)
 EXISTING_MODULES = _ABSOLUTE | {".moda", ".modb", ".pkgc", ".pkgd", ".alt.moda"}
 EXISTING_ALT = _ABSOLUTE | {".moda"}
-MISSING_MODULES = ["nosuch.module", ".relmissing", "vlib.pulses.nosuch", "vlib.nosuchpkg.mod", ".alt.nosuch", ".pkgd.nosuch", ".nosuchpkg.moda"]
-IMPORTING = ("parse-rel", "run", "parse-file", "run-file", "parse-alt", "parse-inj-load")
+MISSING_MODULES = ["nosuch.module", ".relmissing", "vlib.pulses.nosuch", "vlib.nosuchpkg.mod", ".alt.nosuch", ".pkgd.nosuch", ".nosuchpkg.moda", ".plaindir", ".plaindir.x"]
+IMPORTING = ("parse-rel", "run", "parse-file", "run-file", "parse-alt", "parse-inj-load", "parse-nopath", "parse-filepath")
 
 RUNNABLE = [
     "from .pkgc usepulses *\nregister q[2]\nsubcircuit { XC q[1] }\n",
@@ -71,7 +71,7 @@ def _valid_text(ch):
 
 def _string_case(ch):
     kind = ch.pick(["junk", "soup", "prefix-char", "prefix-token", "mutate", "mutate", "special", "missing-module"])
-    entry = ch.pick(["parse", "parse", "parse", "header", "header", "parse-rel", "parse-rel", "run", "run", "parse-inj", "parse-inj", "parse-file", "run-file", "parse-alt", "parse-inj-load", "parse-expand", "parse-expand"])
+    entry = ch.pick(["parse", "parse", "parse", "header", "header", "parse-rel", "parse-rel", "run", "run", "parse-inj", "parse-inj", "parse-file", "run-file", "parse-alt", "parse-inj-load", "parse-expand", "parse-expand", "parse-nopath", "parse-filepath"])
     tokens = None
     if kind == "junk":
         n = ch.int(0, 40)
@@ -139,6 +139,9 @@ def _string_case(ch):
                 "register q[2]\nmacro m { m }\nm\n",
                 "register q[2]\nmacro m a { m a }\nm q[0]\n",
                 "let n 2.5\nregister q[n]\ng q[0]\n",
+                "register q[1]\ng " + "7" * 4400 + "\n",
+                "let x " + "0" * 4400 + "1\nregister q[1]\n",
+                "register q[1]\ng q '" + "1" * 15000 + "'\n",
                 "let n 2.5\nregister q[n]\nmap s q[1]\nmap w q\ng w[0] s\n",
                 "let n -1\nregister q[n]\ng q[0]\n",
                 "let k 0.5\nregister q[2]\nmap a q[k:2]\ng a[0]\n",
@@ -168,7 +171,7 @@ def _string_case(ch):
     else:
         mod = ch.pick(MISSING_MODULES)
         text = f"from {mod} usepulses *\nregister q[2]\nprepare_all\nXA q[0]\nmeasure_all\n"
-        entry = ch.pick(["parse-rel", "run", "parse", "parse-file", "run-file", "parse-alt"])
+        entry = ch.pick(["parse-rel", "run", "parse", "parse-file", "run-file", "parse-alt", "parse-nopath", "parse-filepath"])
     return {"text": text, "entry": entry, "kind": kind, "tokens": tokens}
 
 
@@ -177,7 +180,7 @@ _USEP = re.compile(r"from\s+(\.?[A-Za-z_](?:\.?[A-Za-z0-9_])*|\.)\s+usepulses")
 
 
 def _names_missing_module(text, entry="parse-rel"):
-    existing = EXISTING_ALT if entry == "parse-alt" else EXISTING_MODULES
+    existing = EXISTING_ALT if entry == "parse-alt" else _ABSOLUTE if entry in ("parse-nopath", "parse-filepath") else EXISTING_MODULES
     return any(m not in existing for m in _USEP.findall(text))
 
 
@@ -293,6 +296,10 @@ POOL_TEXTS = [
     ("run-file", "from .pkgd usepulses *\nregister q[2]\nsubcircuit { XD q[1] 1.0 }\n"),
     ("run-file", "from .moda usepulses *\nregister q[2]\nXA q[1]\n"),
     ("run", "from .pkgc usepulses *\nregister q[2]\nsubcircuit { XC q[0] }\n"),
+    ("parse-nopath", "from .moda usepulses *\nregister q[2]\nXA q[0]\n"),
+    ("parse-filepath", "from .moda usepulses *\nregister q[2]\nXA q[0]\n"),
+    ("parse-rel", "from .plaindir usepulses *\nregister q[2]\n"),
+    ("parse-nopath", "from vlib.pulses.moda usepulses *\nregister q[2]\nXA q[0]\n"),
     ("parse-expand", "register q[2]\nmacro m { m }\nm\n"),
     ("parse-expand", "let n 2\nregister q[n]\nmacro m a { g a n }\nloop n { m q[1] }\n"),
     ("parse-inj-load", "from vlib.pulses.modb usepulses *\nregister q[2]\nXB q[0]\nGP q[1]\n"),
